@@ -5,9 +5,9 @@ import (
 	"encoding/base64"
 	"encoding/json"
 	"fmt"
-	"math"
 	"net/http"
 	"sort"
+	"strconv"
 	"strings"
 
 	bin "github.com/gagliardetto/binary"
@@ -203,7 +203,7 @@ func parseGetBlockRequest(raw *json.RawMessage) (*GetBlockRequest, error) {
 		return nil, fmt.Errorf("first argument must be a number, got %T", params[0])
 	}
 
-	slot, err := slotFromJSONNumber(slotRaw)
+	slot, err := slotFromJSONNumber(*raw, slotRaw)
 	if err != nil {
 		return nil, err
 	}
@@ -701,18 +701,22 @@ func parseGetBlockTimeRequest(raw *json.RawMessage) (uint64, error) {
 	if !ok {
 		return 0, fmt.Errorf("first argument must be a number, got %T", params[0])
 	}
-	return slotFromJSONNumber(blockRaw)
+	return slotFromJSONNumber(*raw, blockRaw)
 }
 
 // slotFromJSONNumber converts the decoded JSON number of a request into a slot. The number has gone
 // through a float64: a fraction was silently cut (getBlock(2.7) answered with block 2), and an integer
 // above 2^53 may have been rounded to another slot - neither is the number of the slot that is then looked up.
-func slotFromJSONNumber(f float64) (uint64, error) {
-	if f < 0 || f != math.Trunc(f) {
-		return 0, fmt.Errorf("slot must be a non-negative integer, got %v", f)
+// (Even the float64 can hide it: 432010.00000000001 decodes to exactly 432010. So the slot is taken from
+// the text of the first parameter; f is only what the generic decode made of it.)
+func slotFromJSONNumber(params json.RawMessage, f float64) (uint64, error) {
+	var rawParams []json.RawMessage
+	if err := fasterJson.Unmarshal(params, &rawParams); err != nil || len(rawParams) < 1 {
+		return 0, fmt.Errorf("failed to unmarshal params")
 	}
-	if f >= 1<<53 {
-		return 0, fmt.Errorf("slot %v is too large to be represented exactly", f)
+	slot, err := strconv.ParseUint(strings.TrimSpace(string(rawParams[0])), 10, 64)
+	if err != nil {
+		return 0, fmt.Errorf("slot must be an unsigned integer, got %s", strings.TrimSpace(string(rawParams[0])))
 	}
-	return uint64(f), nil
+	return slot, nil
 }
